@@ -26,6 +26,8 @@
 #include <booster/callback.h>
 #include <cppcms/thread_pool.h>
 #include <sys/socket.h>
+#include <netinet/in.h>
+#include <arpa/inet.h>
 #include <sys/time.h>
 #include <sys/epoll.h>
 #include <sys/select.h>
@@ -154,6 +156,64 @@ extern "C" int select(int nfds,fd_set *r,fd_set *w,fd_set *e,struct timeval *tv)
 	return k;
 }
 
+// ------------------------------------------------------------------ loopback listeners for connect scenarios
+// process-wide, created on first use, kept at high descriptor numbers.  `full`: backlog 0 with its accept queue already
+// full - further SYNs are dropped, so a non-blocking connect() stays "in progress"; `good`: completes the handshake.
+namespace lst {
+	static int high(int fd) { if(fd<0) return fd; int h=::fcntl(fd,F_DUPFD,300); ::close(fd); return h; }
+	static int make_listener(int backlog,int &port)
+	{
+		int l=high(::socket(AF_INET,SOCK_STREAM,0));
+		if(l<0) return -1;
+		struct sockaddr_in a; memset(&a,0,sizeof(a));
+		a.sin_family=AF_INET; a.sin_addr.s_addr=htonl(INADDR_LOOPBACK); a.sin_port=0;
+		if(::bind(l,(struct sockaddr *)&a,sizeof(a))<0 || ::listen(l,backlog)<0) { ::close(l); return -1; }
+		socklen_t len=sizeof(a);
+		if(::getsockname(l,(struct sockaddr *)&a,&len)<0) { ::close(l); return -1; }
+		port=ntohs(a.sin_port);
+		return l;
+	}
+	static int raw_connect(int port,bool nonblocking)
+	{
+		int f=high(::socket(AF_INET,SOCK_STREAM,0));
+		if(f<0) return -1;
+		if(nonblocking) ::fcntl(f,F_SETFL,::fcntl(f,F_GETFL,0)|O_NONBLOCK);
+		struct sockaddr_in a; memset(&a,0,sizeof(a));
+		a.sin_family=AF_INET; a.sin_addr.s_addr=htonl(INADDR_LOOPBACK); a.sin_port=htons(port);
+		int r=::connect(f,(struct sockaddr *)&a,sizeof(a));
+		if(r<0 && errno!=EINPROGRESS) { ::close(f); return -1; }
+		return f;
+	}
+	static bool connected(int fd) { struct sockaddr_in a; socklen_t l=sizeof(a); return ::getpeername(fd,(struct sockaddr *)&a,&l)==0; }
+	static int full_port()      // 0 = could not build one
+	{
+		static int port=-1;
+		if(port>=0) return port;
+		port=0;
+		int p=0;
+		if(make_listener(0,p)<0) return 0;
+		for(int i=0;i<6;i++) { raw_connect(p,true); std::this_thread::sleep_for(std::chrono::milliseconds(20)); }
+		std::this_thread::sleep_for(std::chrono::milliseconds(100));
+		int probe=raw_connect(p,true);
+		if(probe<0) return 0;
+		std::this_thread::sleep_for(std::chrono::milliseconds(300));
+		int err=0; socklen_t l=sizeof(err); ::getsockopt(probe,SOL_SOCKET,SO_ERROR,&err,&l);
+		bool pending=!connected(probe) && err==0;
+		::close(probe);
+		if(pending) port=p;
+		return port;
+	}
+	static int good_port()
+	{
+		static int port=-1;
+		if(port>=0) return port;
+		port=0;
+		int p=0;
+		if(make_listener(128,p)>=0) port=p;
+		return port;
+	}
+}
+
 // ------------------------------------------------------------------ scenario
 struct op_t { std::string name; std::vector<std::string> a; };
 
@@ -198,6 +258,10 @@ struct scenario {
 	std::vector<bool> raw_closed;     // the application closed the descriptor itself (::close + cancel_io_events)
 	std::vector<bool> reopenable;     // closed while run() was executing and no reset() since: the number is still free
 	char iobuf[8];
+	std::vector<std::unique_ptr<io::stream_socket> > targets;   // accept targets
+	std::vector<int> clients;                                    // raw client connections made to our acceptors
+	std::vector<int> aport;                                      // port of acceptor device i (0 otherwise)
+	std::vector<std::unique_ptr<std::vector<char> > > bufs;      // buffers of async_read/async_write in flight
 	std::vector<std::unique_ptr<io::deadline_timer> > timers;
 	std::vector<std::vector<op_t> > progs;
 	std::vector<hinfo> hs;
@@ -339,6 +403,55 @@ static void do_op(scenario *sc,op_t const &o)
 		booster::intrusive_ptr<ev_call> p(new ev_call(sc,id));
 		acc.async_accept(target,io::event_handler(p));
 	}
+	else if((o.name=="xp" || o.name=="xg") && o.a.size()==2) {
+		// a connect that is really pending (xp: SYNs dropped) or really completes (xg), on a connector device
+		size_t i=strtoul(o.a[0].c_str(),0,10);
+		io::stream_socket *s = i<sc->socks.size() && sc->kind[i]==3 ? dynamic_cast<io::stream_socket *>(sc->socks[i].get()) : 0;
+		int port = o.name=="xp" ? lst::full_port() : lst::good_port();
+		if(!s || s->native()!=io::invalid_socket || port==0) { sc->bad=true; return; }
+		error_code e;
+		s->open(io::pf_inet,e);
+		if(e) { sc->bad=true; return; }
+		sc->ours[i]=s->native();
+		{ std::unique_lock<std::mutex> lk(ls::m); ls::our_fds.insert(s->native()); }
+		int id=sc->new_handler('i',0,atoi(o.a[1].c_str()));
+		booster::intrusive_ptr<ev_call> p(new ev_call(sc,id));
+		s->async_connect(io::endpoint("127.0.0.1",port),io::event_handler(p));
+		if(o.name=="xg") {
+			for(int spin=0;spin<2000 && !lst::connected(s->native());spin++) std::this_thread::sleep_for(std::chrono::milliseconds(1));
+			if(!lst::connected(s->native())) sc->bad=true;
+		}
+		else if(lst::connected(s->native())) sc->bad=true;
+	}
+	else if(o.name=="xq" && o.a.size()==2) {
+		size_t i=strtoul(o.a[0].c_str(),0,10);
+		io::acceptor *a = i<sc->socks.size() && sc->kind[i]==5 ? dynamic_cast<io::acceptor *>(sc->socks[i].get()) : 0;
+		if(!a) { sc->bad=true; return; }
+		sc->targets.push_back(std::unique_ptr<io::stream_socket>(new io::stream_socket(srv)));
+		int id=sc->new_handler('i',0,atoi(o.a[1].c_str()));
+		booster::intrusive_ptr<ev_call> p(new ev_call(sc,id));
+		a->async_accept(*sc->targets.back(),io::event_handler(p));
+	}
+	else if(o.name=="xR" && o.a.size()==3) {
+		std::unique_ptr<io::basic_io_device> tmp;
+		io::stream_socket *s=dynamic_cast<io::stream_socket *>(sock_of(sc,o.a[0],tmp));
+		size_t n=strtoul(o.a[1].c_str(),0,10);
+		if(!s || n==0) { sc->bad=true; return; }
+		sc->bufs.push_back(std::unique_ptr<std::vector<char> >(new std::vector<char>(n)));
+		int id=sc->new_handler('i',0,atoi(o.a[2].c_str()));
+		booster::intrusive_ptr<io_call> p(new io_call(sc,id));
+		s->async_read(io::buffer(&sc->bufs.back()->front(),n),io::io_handler(p));
+	}
+	else if(o.name=="xW" && o.a.size()==2) {
+		std::unique_ptr<io::basic_io_device> tmp;
+		io::stream_socket *s=dynamic_cast<io::stream_socket *>(sock_of(sc,o.a[0],tmp));
+		if(!s) { sc->bad=true; return; }
+		size_t n=8u<<20;     // far more than a socket pair buffers
+		sc->bufs.push_back(std::unique_ptr<std::vector<char> >(new std::vector<char>(n,'w')));
+		int id=sc->new_handler('i',0,atoi(o.a[1].c_str()));
+		booster::intrusive_ptr<io_call> p(new io_call(sc,id));
+		s->async_write(io::buffer(static_cast<char const *>(&sc->bufs.back()->front()),n),io::io_handler(p));
+	}
 	else if(o.name=="rx" && o.a.size()==1) {
 		size_t i=strtoul(o.a[0].c_str(),0,10);
 		if(i<sc->socks.size() && !sc->raw_closed[i] && sc->socks[i]->native()!=io::invalid_socket) {
@@ -382,7 +495,15 @@ static void do_op(scenario *sc,op_t const &o)
 		// the other end may have been closed by the script already (EPIPE): the byte is then simply not delivered
 		if(i<sc->socks.size() && !sc->raw_closed[i]) {
 			char c='x';
-			if(sc->kind[i]==0 && sc->socks[i]->native()==io::invalid_socket) ;   // closed: nobody to write to
+			if(sc->kind[i]==5) {
+				// a client connects to our acceptor (the handshake completes in the kernel; nobody needs to accept yet)
+				if(sc->socks[i]->native()!=io::invalid_socket) {
+					int cfd=lst::raw_connect(sc->aport[i],false);
+					if(cfd<0) sc->bad=true; else sc->clients.push_back(cfd);
+				}
+			}
+			else if(sc->kind[i]==3) ;
+			else if(sc->kind[i]==0 && sc->socks[i]->native()==io::invalid_socket) ;   // closed: nobody to write to
 			else if(sc->kind[i]==0) (void)::send(sc->peers[i],&c,1,MSG_NOSIGNAL|MSG_DONTWAIT);
 			else if(sc->kind[i]==1) {
 				// a byte into the pipe, through its write end, if that is still open
@@ -448,8 +569,12 @@ static std::string run_loop_case(std::vector<std::string> const &w,int backend)
 {
 	if(w.size()<3) return "bad-op";
 	scenario sc;
-	size_t ns=strtoul(w[1].c_str(),0,10),nt=strtoul(w[2].c_str(),0,10),np=0;
-	if(w[1].find('+')!=std::string::npos) np=strtoul(w[1].c_str()+w[1].find('+')+1,0,10);
+	size_t ns=0,np=0,nc=0,na=0,nt=strtoul(w[2].c_str(),0,10);
+	{
+		size_t cnt[4]={0,0,0,0}; int k=0; std::string h=w[1]; size_t p0=0;
+		for(;k<4;k++) { size_t q=h.find('+',p0); cnt[k]=strtoul(h.substr(p0,q==std::string::npos?q:q-p0).c_str(),0,10); if(q==std::string::npos) break; p0=q+1; }
+		ns=cnt[0]; np=cnt[1]; nc=cnt[2]; na=cnt[3];
+	}
 	size_t i=3;
 	for(;i<w.size() && w[i]!="S";i++) {
 		size_t eq=w[i].find('=');
@@ -498,6 +623,27 @@ static std::string run_loop_case(std::vector<std::string> const &w,int backend)
 			std::unique_lock<std::mutex> lk(ls::m);
 			ls::our_fds.insert(fds[e]);
 		}
+	}
+	for(size_t k=0;k<nc;k++) {
+		// connector devices: stream sockets that are opened by the script (xp / xg)
+		sc.socks.push_back(std::unique_ptr<io::basic_io_device>(new io::stream_socket(*sc.srv)));
+		sc.ours.push_back(-1); sc.peers.push_back(-1); sc.kind.push_back(3); sc.peer_idx.push_back(-1);
+		sc.raw_closed.push_back(false); sc.reopenable.push_back(false);
+	}
+	sc.aport.assign(sc.socks.size(),0);
+	for(size_t k=0;k<na;k++) {
+		std::unique_ptr<io::acceptor> a(new io::acceptor(*sc.srv));
+		error_code e;
+		a->open(io::pf_inet,e);
+		if(!e) a->bind(io::endpoint("127.0.0.1",0),e);
+		if(!e) a->listen(16,e);
+		struct sockaddr_in sa; socklen_t sl=sizeof(sa);
+		if(e || ::getsockname(a->native(),(struct sockaddr *)&sa,&sl)<0) return "bad-op acceptor";
+		sc.aport.push_back(ntohs(sa.sin_port));
+		sc.ours.push_back(a->native()); sc.peers.push_back(-1); sc.kind.push_back(5); sc.peer_idx.push_back(-1);
+		sc.raw_closed.push_back(false); sc.reopenable.push_back(false);
+		{ std::unique_lock<std::mutex> lk(ls::m); ls::our_fds.insert(a->native()); }
+		sc.socks.push_back(std::move(a));
 	}
 	for(size_t k=0;k<nt;k++)
 		sc.timers.push_back(std::unique_ptr<io::deadline_timer>(new io::deadline_timer(*sc.srv)));
@@ -578,6 +724,8 @@ static std::string run_loop_case(std::vector<std::string> const &w,int backend)
 		ls::lockstep=false; ls::virtual_time=false;
 	}
 	sc.timers.clear();
+	sc.targets.clear();
+	for(size_t k=0;k<sc.clients.size();k++) ::close(sc.clients[k]);
 	sc.socks.clear();
 	for(size_t k=0;k<sc.peers.size();k++) if(sc.peers[k]>=0) ::close(sc.peers[k]);
 	sc.srv.reset();
